@@ -353,9 +353,12 @@ def atoms(guards, owner, D):
     for g in guards:
         if g[0] == "if":
             f = fold_owner(g[1], owner, D)
-            if f == ("lit", True) and g[2] is True:
+            pol = g[2]
+            while isinstance(f, tuple) and f and f[0] == "not":
+                f, pol = f[1], (not pol)
+            if f == ("lit", True) and pol is True:
                 continue
-            out.append(("%s" if g[2] else "NOT %s") % hir.fmt(f, 400))
+            out.append(("%s" if pol else "NOT %s") % hir.fmt(f, 400))
         elif g[0] == "arm" and g[1][0] == "call" and str(g[1][1]).endswith("IntoIterator::into_iter"):
             out.append("FOR %s" % hir.fmt(fold_owner(g[1][2][0], owner, D), 300))
     return out
@@ -467,11 +470,11 @@ def g5(ctx, F, D):
                     want.add("<T>::is_none(Game::get_position(game, Position::new_assert(%d, %d)))" % (row, c))
                 for c in safe:
                     if c == 4:
-                        want.add("!<T>::get_or_init(<T>::new(), || Game::is_targeted(game, Position::new_assert(%d, 4), Player::%s))" % (row, owner))
+                        want.add("NOT <T>::get_or_init(<T>::new(), || Game::is_targeted(game, Position::new_assert(%d, 4), Player::%s))" % (row, owner))
                     else:
-                        want.add("!Game::is_targeted(game, Position::new_assert(%d, %d), Player::%s)" % (row, c, owner))
-                alt = {w.replace("!<T>::get_or_init(<T>::new(), || Game::is_targeted(game, Position::new_assert(%d, 4), Player::%s))" % (row, owner),
-                                 "!Game::is_targeted(game, Position::new_assert(%d, 4), Player::%s)" % (row, owner)) for w in want}
+                        want.add("NOT Game::is_targeted(game, Position::new_assert(%d, %d), Player::%s)" % (row, c, owner))
+                alt = {w.replace("NOT <T>::get_or_init(<T>::new(), || Game::is_targeted(game, Position::new_assert(%d, 4), Player::%s))" % (row, owner),
+                                 "NOT Game::is_targeted(game, Position::new_assert(%d, 4), Player::%s)" % (row, owner)) for w in want}
                 ok = set(at) in (want, alt)
                 found = sorted(at)
                 exp = sorted(want)
@@ -496,7 +499,7 @@ def g7(ctx, F, D):
         want_adj = "NOT ((<impl i8>::abs((Position::col(new_pos) - Position::col(%s))) <= 1) && (<impl i8>::abs((Position::row(new_pos) - Position::row(%s))) <= 1))" % (other, other)
         want = {"FOR [(0, 1), (0, -1), (1, 0), (-1, 0), (1, 1), (1, -1), (-1, 1), (-1, -1)]",
                 "let(v1::Some, Position::add(pos, delta), new_pos())",
-                "!<T>::is_some_and(Game::get_position(game, new_pos), |piece| (piece.owner == Player::White))", want_adj}
+                "NOT <T>::is_some_and(Game::get_position(game, new_pos), |piece| (piece.owner == Player::White))", want_adj}
         # the table itself is checked by G2; compare the rest
         at2 = {a for a in at if not a.startswith("FOR ")}
         w2 = {a for a in want if not a.startswith("FOR ")}
@@ -554,9 +557,9 @@ def g6(ctx, F, D):
         startn = (mvv[3][0] if mvv and mvv[3] else "?")
         dc = "(Position::col(%s) - Position::col(%s))" % (startn, kpn)
         dr = "(Position::row(%s) - Position::row(%s))" % (startn, kpn)
-        want = {("verify_king", True), ("!%s" % chn, True), ("(%s != 0)" % dc, True), ("(%s != 0)" % dr, True),
+        want = {("verify_king", True), (chn, False), ("(%s != 0)" % dc, True), ("(%s != 0)" % dr, True),
                 ("(<impl i8>::abs(%s) != <impl i8>::abs(%s))" % (dc, dr), True)}
-        have = {x for x in t if not x[0].startswith("let(") and not x[0].startswith("!Game::king_exists")}
+        have = {x for x in t if not x[0].startswith("let(") and not x[0].startswith("Game::king_exists")}
         # abs comparison operands may be in either order after canon
         alt = {("(<impl i8>::abs(%s) != <impl i8>::abs(%s))" % (dr, dc), True) if "abs" in w[0] else w for w in want}
         ok = mvv is not None and (have == want or have == alt) and mvv[2] in (("index", ("var", "moves"), ("var", "index")), ("var", "_move"))
@@ -685,7 +688,7 @@ def g9(ctx, F, D):
     cleared = first.get("k") == "MethodCall" and first["name"] == "clear" and hir.strip(first["recv"]).get("to", {}).get("name") == "moves"
     rets = [n for n, _ in hir.walk(gbody) if n.get("k") == "Ret"]
     rg = [[(hir.fmt(x[1], 80), x[2]) for x in (hir.guards_of(r, gbody, gsym) or []) if x[0] == "if"] for r in rets]
-    ok = cleared and rg == [[("!Game::king_exists(self, self.current_player)", True)]]
+    ok = cleared and rg == [[("Game::king_exists(self, self.current_player)", False)]]
     ctx.check("C01.G9", "list-cleared-and-empty-only-without-own-king", ok, fn=FILTER, file=gm["file"],
               what="get_moves must start from an empty list and may return early (no moves) only when the mover has no king", found=rg)
     ke = F.fn("chess::Game::king_exists")
